@@ -159,6 +159,7 @@ Proof.
     intros o o' E; cbv beta in E; destruct (a_iter o) as [[]|]; inversion E; reflexivity.
   - eapply with_obj_flag_ok; [eassumption | | eassumption].
     intros o o' E; cbv beta in E; destruct (a_iter o) as [[]|]; inversion E; reflexivity.
+  - eapply with_obj_flag_ok; [eassumption | | eassumption]. intros o o' E; inversion E; reflexivity.
 Qed.
 
 Lemma abort_flag_ok : forall s, flag_ok s -> flag_ok (abort s).
@@ -227,29 +228,30 @@ Theorem ctor_code_exactly_once : forall kd k,
 Proof. intros; apply ctor_exactly_once_in_the_end. Qed.
 
 (** non-vacuity: the fault positions of the code's programs do different things - finalizer calls
-    after the drop of the object, per fault position 0..9 (9 = no fault) *)
+    after the drop of the object, per fault position 0..10 (9: the object is complete but the
+    constructor raises instead of returning it; 10 = no fault) *)
 Example ctor_positions_give :
-  map (fun k => d_calls (c_data (after_drop KGive (prog_of KGive) k))) (seq 0 10) = [0;0;0;0;0;0;0;1;1;1].
+  map (fun k => d_calls (c_data (after_drop KGive (prog_of KGive) k))) (seq 0 11) = [0;0;0;0;0;0;0;1;1;1;1].
 Proof. vm_compute; reflexivity. Qed.
 Example ctor_positions_init :
   map (fun k => (d_exists (c_data (after_drop KInit prog_init k)), d_calls (c_data (after_drop KInit prog_init k))))
-      (seq 0 10)
-  = [(false,0);(false,0);(false,0);(true,0);(true,0);(true,0);(true,0);(true,1);(true,1);(true,1)].
+      (seq 0 11)
+  = [(false,0);(false,0);(false,0);(true,0);(true,0);(true,0);(true,0);(true,1);(true,1);(true,1);(true,1)].
 Proof. vm_compute; reflexivity. Qed.
 Example ctor_positions_keep :
-  map (fun k => d_calls (c_data (after_drop KKeep (prog_of KKeep) k))) (seq 0 10) = [0;0;0;0;0;0;0;0;0;0].
+  map (fun k => d_calls (c_data (after_drop KKeep (prog_of KKeep) k))) (seq 0 11) = [0;0;0;0;0;0;0;0;0;0;0].
 Proof. vm_compute; reflexivity. Qed.
 
 (** ** the excluded design: default [True] first, the caller's [False] once set up.  Unfaulted it
-    behaves like the code; a fault during priming (positions 7, 8) or between priming and the late
-    store (9) makes the collected half-built iterator finalize data the caller kept. *)
+    behaves like the code; a fault during priming (positions 7, 8), between priming and the late
+    store (9) or after it (10: flag right again) - 7, 8, 9 make the collected half-built iterator finalize data the caller kept. *)
 Example default_first_unfaulted_same :
-  after_drop KKeep (prog_frd_default_first false) 10 = after_drop KKeep (prog_of KKeep) 9.
+  after_drop KKeep (prog_frd_default_first false) 11 = after_drop KKeep (prog_of KKeep) 10.
 Proof. vm_compute; reflexivity. Qed.
 
 Example default_first_refuted :
-  map (fun k => d_calls (c_data (after_drop KKeep (prog_frd_default_first false) k))) (seq 0 11)
-  = [0;0;0;0;0;0;0;1;1;1;0]
+  map (fun k => d_calls (c_data (after_drop KKeep (prog_frd_default_first false) k))) (seq 0 12)
+  = [0;0;0;0;0;0;0;1;1;1;0;0]
   /\ ~ kept_untouched (c_data (after_drop KKeep (prog_frd_default_first false) 7))
   /\ ~ flags_faithful KKeep (prog_frd_default_first false).
 Proof.
@@ -268,7 +270,7 @@ Lemma ctor_complete : forall kd k, length (prog_of kd) <= k ->
   exec (prog_of kd) k (start kd) = (complete kd, true).
 Proof.
   intros kd k H.
-  assert (E : exists j, k = 9 + j) by (exists (k - 9); destruct kd; cbn in H; lia).
+  assert (E : exists j, k = 10 + j) by (exists (k - 10); destruct kd; cbn in H; lia).
   destruct E as [j ->]. destruct kd; reflexivity.
 Qed.
 
@@ -296,3 +298,37 @@ Section MkLink.
     destruct kd; cbn; repeat split; reflexivity.
   Qed.
 End MkLink.
+
+(** ** the statements exported by props/C10.v *)
+Lemma ctor_exactly_once_for_every_design_and_fault : forall kd p k,
+  d_calls (c_data (after_drop kd p k)) <= 1 /\
+  let d := c_data (the_end kd p k) in
+  d_calls d <= 1 /\ (d_exists d = true -> d_finalized d = true /\ d_calls d = 1).
+Proof.
+  intros kd p k; split; [apply (ctor_at_most_once kd p k) | apply ctor_exactly_once_in_the_end].
+Qed.
+
+Lemma ctor_code_kept :
+  (forall kd, flags_faithful kd (prog_of kd)) /\
+  forall k, kept_untouched (c_data (after_drop KKeep (prog_of KKeep) k)).
+Proof. split; [exact code_flags_faithful | exact ctor_code_kept_untouched]. Qed.
+
+Lemma default_first_refuted_all :
+  after_drop KKeep (prog_frd_default_first false) 11 = after_drop KKeep (prog_of KKeep) 10 /\
+  map (fun k => d_calls (c_data (after_drop KKeep (prog_frd_default_first false) k))) (seq 0 12)
+    = [0;0;0;0;0;0;0;1;1;1;0;0] /\
+  ~ kept_untouched (c_data (after_drop KKeep (prog_frd_default_first false) 7)) /\
+  ~ flags_faithful KKeep (prog_frd_default_first false).
+Proof. split; [exact default_first_unfaulted_same | exact default_first_refuted]. Qed.
+
+Lemma ctor_complete_is_mk_all : forall RS n term kd c rs0 s,
+  mk RS n term c rs0 = inl s -> c_owns c = owns_of kd ->
+  (forall k, length (prog_of kd) <= k -> exec (prog_of kd) k (start kd) = (complete kd, true)) /\
+  let o := match c_obj (complete kd) with Some o => o | None => blank end in
+  a_closed o = Some (closed s) /\ phase s = AtDummy /\ a_flag o = Some (owns (gh s)) /\
+  d_finalized (c_data (complete kd)) = finalized (gh s) /\ d_calls (c_data (complete kd)) = fin_calls (gh s) /\
+  d_finalized (c_data (drop (complete kd))) = finalized (gh (close RS s)) /\
+  d_calls (c_data (drop (complete kd))) = fin_calls (gh (close RS s)).
+Proof.
+  intros RS n term kd c rs0 s M O; split; [exact (ctor_complete kd) | exact (ctor_complete_is_mk RS n term kd c rs0 s M O)].
+Qed.
